@@ -267,3 +267,17 @@ def head_pair_grid(atoms):
         for u2 in U:
             out.append(b1(u2(a), b)); out.append(b1(a, u2(b)))
     return out
+
+
+def future_sign_cases():
+    """future heads of one predicate with both classical signs, several depths, several parts (C02/C09)"""
+    out = []
+    for n1, n2 in ((1, 1), (1, 2), (2, 1)):
+        for part in ("always", "dynamic", "initial"):
+            out.append([("rule", "always", ("choice", "t"), ()),
+                        ("rule", "initial", ("atom", "-a", 0), ()),
+                        ("rule", part, ("atom", "a", n1), (("atom", "pos", "t", 0), ("atom", "pos", "-a", 0))),
+                        ("rule", part, ("atom", "-a", n2), (("atom", "pos", "t", 0), ("atom", "pos", "a", 0))),
+                        ("rule", "dynamic", ("atom", "a", 0), (("atom", "pos", "a", -1), ("atom", "not", "t", -1))),
+                        ("rule", "dynamic", ("atom", "-a", 0), (("atom", "pos", "-a", -1), ("atom", "not", "t", -1)))])
+    return out
